@@ -8,3 +8,16 @@ func init() {
 }
 
 func init() { prop("C01", "C01-R2") }
+
+func init() { prop("C01", "C01-R3", "C01-R4") }
+
+func init() {
+	prop("C02", "C02-R1", "C02-R2")
+	prop("C20", "C20-R1")
+}
+
+func init() {
+	prop("C01", "C01-R5")
+	prop("C02", "C02-R4")
+	prop("C20", "C20-R2", "C20-R3")
+}
